@@ -403,6 +403,7 @@ func c12(r *rep.Run) {
 	c12Schedules(r)
 	c12SlowConsumer(r)
 	c12LibraryCtx(r)
+	c12ReplacedChannel(r)
 	fmt.Printf("schedules done at %.1fs\n", time.Since(r.Start).Seconds())
 	r.Finish()
 }
@@ -863,5 +864,78 @@ func c12LibraryCtx(r *rep.Run) {
 		}
 	}
 	r.Cov["library_context_runs"] = n
+	r.Add(0, n, n, n, 0)
+}
+
+// c12ReplacedChannel: Expr.EventChan is the caller's field. Histories of up to
+// three evaluations (Eval / TryEval) of one compiled program with the channel
+// replaced by a fresh one before each: every event of an evaluation arrives on
+// the channel installed at that time — the same sequence as on a freshly
+// compiled program — and nothing arrives on a channel installed earlier.
+func c12ReplacedChannel(r *rep.Run) {
+	h := drive.NewHarness()
+	var n int64
+	for _, p := range c12Corpus() {
+		cfg := h.NewConfig(p.vars, p.opt)
+		run := func(e *eval.Expr, mode int) (string, []chan eval.Event) {
+			ch := make(chan eval.Event, 4096)
+			e.EventChan = ch
+			f := drive.NewFetcher(h, p.vars, p.opt)
+			copy(f.Vals, p.vals)
+			var v eval.Value
+			var err error
+			pn, _ := drive.Fence(func() {
+				if mode == 0 {
+					v, err = e.Eval(&eval.Ctx{VariableFetcher: f})
+				} else {
+					v, err = e.TryEval(&eval.Ctx{VariableFetcher: f})
+				}
+			})
+			var sb strings.Builder
+			fmt.Fprintf(&sb, "%v/%v/%v", v, err, pn)
+			for len(ch) > 0 {
+				sb.WriteString("\n" + deepCopyEvent(<-ch))
+			}
+			return sb.String(), []chan eval.Event{ch}
+		}
+		// ground truth per entry point: one evaluation on a freshly compiled program
+		var truth [2]string
+		for mode := 0; mode < 2; mode++ {
+			e, err := eval.Compile(cfg, p.src)
+			if err != nil {
+				r.Violate("compile", p.src, sprintf("does not compile: %v", err), nil)
+				return
+			}
+			truth[mode], _ = run(e, mode)
+		}
+		for hist := 0; hist < 8; hist++ { // three steps, each Eval or TryEval
+			e, err := eval.Compile(cfg, p.src)
+			if err != nil {
+				continue
+			}
+			var old []chan eval.Event
+			var steps []string
+			for step := 0; step < 3; step++ {
+				mode := (hist >> step) & 1
+				steps = append(steps, []string{"Eval", "TryEval"}[mode])
+				got, chs := run(e, mode)
+				n++
+				d := map[string]interface{}{"source": p.src, "config": p.opt.String(), "history": strings.Join(steps, ", ") + " (a fresh EventChan before each)"}
+				if got != truth[mode] {
+					r.Violate("replaced-channel", p.src+p.opt.String(), sprintf("after the caller replaced Expr.EventChan, evaluation #%d (%s) delivers other events to the channel now installed than a freshly compiled program does", step+1, steps[step]), map[string]interface{}{"source": p.src, "config": p.opt.String(), "history": d["history"], "got": got, "fresh": truth[mode]})
+				}
+				for oi, oc := range old {
+					if len(oc) > 0 {
+						r.Violate("replaced-channel", p.src+p.opt.String()+"old", sprintf("evaluation #%d sent %d event(s) to the channel that was installed for evaluation #%d and has been replaced since", step+1, len(oc), oi+1), d)
+						for len(oc) > 0 {
+							<-oc
+						}
+					}
+				}
+				old = append(old, chs...)
+			}
+		}
+	}
+	r.Cov["replaced_channel_evaluations"] = n
 	r.Add(0, n, n, n, 0)
 }
